@@ -485,6 +485,22 @@ def allclose(a, b, rtol=Fraction(1, 10**5), atol=Fraction(1, 10**8), equal_nan=F
     return acc if not acc.is_bool() or acc.op not in ("true", "false") else (acc.op == "true")
 
 
+def array_equal(a, b, **k):
+    """elementwise exact equality of two arrays of the same shape (symbolic: conjunction of equalities)"""
+    a, b = _np.asarray(_arr(a), dtype=object), _np.asarray(_arr(b), dtype=object)
+    if a.shape != b.shape:
+        return False
+    acc = T.TRUE
+    for x, y in zip(a.reshape(-1), b.reshape(-1)):
+        x, y = norm(x), norm(y)
+        if isinstance(x, _EXACT) and isinstance(y, _EXACT):
+            if x != y:
+                return False
+            continue
+        acc = T.band(acc, T.cmp("==", T.lift(x), T.lift(y)))
+    return acc if acc.op != "true" else True
+
+
 def digitize(x, bins, right=False):
     """number of bins[i] <= x  (bins increasing, right=False)."""
     _used("np.digitize(x,bins) = #{i : bins[i] <= x}")
